@@ -82,6 +82,18 @@ class Sim:
         self._snap()
         return 'response', lr.f[0]
 
+    def closed_arrives(self, name, segref, text_len):
+        """segment arrives for `name` in the CLOSED state (no TCB): returns the response header or None"""
+        peer = PEER[name]
+        seg = self._seg_value(segref)
+        hdr = seg.f[self.F.seg['header']]
+        self.ops.append(('closed', name, segref, text_len))
+        self.results.append('?')
+        r = self.ex.call('segment_arrives_closed', [hdr, text_len, ipaddr(ADDR[name]), ipaddr(ADDR[peer])])
+        self.results[-1] = 'none' if r.variant == 0 else ('response', r.f[0])
+        self._snap()
+        return None if r.variant == 0 else r.f[0]
+
     def arrives(self, name, segref):
         seg = self._seg_value(segref)
         self.ops.append(('arrives', name, segref))
@@ -315,6 +327,9 @@ def render_rust(sim, ev, test_name='mirx_replay', prelude=True):
             body = (f'match segment_arrives_listen({segexpr(op[2])}, Ipv4Address::new({ADDR[name]}), Ipv4Address::new({ADDR[peer]}), {ev(op[3])}, {ev(op[4])}) {{ '
                     f'None => "none".to_string(), Some(ListenResult::Tcb(t)) => {{ {v} = Some(t); "tcb".to_string() }}, '
                     f'Some(ListenResult::Response(h)) => format!("response {{}}", hd(&h)) }}')
+        elif kind == 'closed':
+            body = (f'match segment_arrives_closed({segexpr(op[2])}.header, {ev(op[3])}, Ipv4Address::new({ADDR[name]}), Ipv4Address::new({ADDR[peer]})) {{ '
+                    f'None => "none".to_string(), Some(h) => format!("response {{}}", hd(&h)) }}')
         elif kind == 'arrives':
             body = f'format!("{{:?}}", {v}.as_mut().unwrap().segment_arrives({segexpr(op[2])}))'
         elif kind == 'segments':
@@ -355,7 +370,7 @@ def predict_lines(sim, ev):
         res = sim.results[k]
         if kind in ('open', 'send', 'abort', 'drop'):
             r = ''
-        elif kind == 'listen':
+        elif kind in ('listen', 'closed'):
             r = res if isinstance(res, str) else 'response ' + _hd(F, res[1], ev)
         elif kind == 'segments':
             r = ' '.join(_hd(F, sg.f[F.seg['header']], ev) + '/' + msg_digest(sg.f[F.seg['text']], ev) for sg in res)
